@@ -966,6 +966,11 @@ def rule_rangecoder(facts):
                         if q[0] == "field" and pat.has_call(q, "::next"):
                             # the value of the loop variable in round i_: 0..8 counts up, (0..8).rev() counts down
                             return (7 - i_) if pat.has_call(q, "::rev") else i_
+                        if q[0] == "phi" and len(q) == 2 and isinstance(q[1], tuple) and any(
+                                isinstance(a_, tuple) and a_ and (a_[0] == "arg" and a_[2] == "byte" or
+                                                                  (a_[0] == "cast" and isinstance(a_[2], tuple) and a_[2][:1] == ("arg",) and a_[2][2] == "byte"))
+                                for a_ in q[1]):
+                            return (byte << i_) & 0xFF      # a copy of the byte shifted left once per round (bits peeled from the top)
                         if q[0] == "phi":
                             return acc
                         raise pat.NotEvaluable(q)
